@@ -477,6 +477,9 @@ def run(rep, proj, tier):
     rep.trusted_base = ["CPython ast", "yadsa partial evaluator", "the yaml/npz/tar/pathlib models in rules/c15.py (safe YAML holds only plain containers and scalars; "
                         "npz holds arrays by name; tar holds the files under the added directory)"]
     rep.assumptions = ["repr-based float serialisation of PyYAML and numpy's npz are exact for float64"]
+    from . import state
+
+    state.check(rep, proj, "C15.state", module_filter=lambda m: m.name in ('yadism.output', 'yadism.esf.result'))
     sp = specs(tier)
     outs = sweep.run_cells(_job, sp)
     n_ok = 0
